@@ -214,7 +214,7 @@ func c17Salt(r *rand.Rand) []byte {
 func TestC17(t *testing.T) {
 	m := mon.New(t, "C17")
 	defer m.Done()
-	m.Rule("roundtrip cases: password length forced by index (72, 71, a fixed boundary list 0..72, random 0..72), style by index (ASCII, multi-byte UTF-8, arbitrary non-NUL bytes with many >=0x80 and 0xff runs, bytes with NULs), cost 4 (5 and 6 for 1/8 each), salt through a replaced crypto/rand.Reader (zero, all-ones, random): GenerateFromPassword output must be $2a$-formatted, equal the reference hash for that salt, report its cost, verify under itself, under the reference and under every applicable witness (nettle: all passwords; libxcrypt crypt_r: NUL-free; python crypt: NUL-free valid UTF-8); then near-miss candidates (one byte changed at forced and random positions incl. 0, len-1, 71; shorter by one; one byte longer; +NUL; cyclic repetition pw‖NUL‖pw[:k]; byte→NUL; >72-byte extensions) must be accepted iff the 72-byte effective key (password‖NUL cut to 72 bytes, read cyclically) is the same — for candidates longer than 72 bytes only 'a different key is never accepted' is judged (undocumented). Passwords of 73..80 bytes must be refused by GenerateFromPassword with ErrPasswordTooLong. foreign cases: hash made by libxcrypt / nettle / reference under $2a$, $2b$, $2y$ must be accepted with the right password, rejected with a near miss, and Cost must return its cost. malformed cases: from a valid hash every proper prefix, one or two substitutions at every one of the 60 positions, appended bytes, and random strings: outcome table in c17Substitution (documented or format-forced errors are judged; older major version, unknown minor letter, non-canonical unused bits of the last salt/hash character, Cost on a 59-byte prefix are observed only); nothing may panic")
+	m.Rule("roundtrip cases: password length forced by index (72, 71, a fixed boundary list 0..72, random 0..72), style by index (ASCII, multi-byte UTF-8, arbitrary non-NUL bytes with many >=0x80 and 0xff runs, bytes with NULs), cost 4 (5 and 6 for 1/8 each), salt through a replaced crypto/rand.Reader (zero, all-ones, random): GenerateFromPassword output must be $2a$-formatted, equal the reference hash for that salt, report its cost, verify under itself, under the reference and under every applicable witness (nettle: all passwords; libxcrypt crypt_r: NUL-free; python crypt: NUL-free valid UTF-8); then near-miss candidates (one byte changed at forced and random positions incl. 0, len-1, 71; shorter by one; one byte longer; +NUL; cyclic repetition pw‖NUL‖pw[:k]; byte→NUL; >72-byte extensions) must be accepted iff the 72-byte effective key (password‖NUL cut to 72 bytes, read cyclically) is the same — for candidates longer than 72 bytes only 'a different key is never accepted' is judged (undocumented). Passwords of 73..80 bytes must be refused by GenerateFromPassword with ErrPasswordTooLong. foreign cases: hash made by libxcrypt / nettle / reference under $2a$, $2b$, $2y$ must be accepted with the right password, rejected with a near miss, and Cost must return its cost. malformed cases: from a valid hash every proper prefix, one or two substitutions at every one of the 60 positions, appended bytes, and random strings: outcome table in c17Substitution (documented or format-forced errors are judged; older major version, unknown minor letter, non-canonical unused bits of the last salt/hash character, Cost on a 59-byte prefix are observed only); nothing may panic. Every call receives guarded private copies of its input slices (capacity exact, +1, +2, +16 with a sentinel in the spare part) that must be byte-identical afterwards; once per roundtrip/foreign case the same hashedPassword and password slices are used for right/wrong/right Compare and 3x Cost without restoring them; the last 8 returned hashes are kept and re-verified after later calls")
 	m.Assume("h/ref/bcryptref (Blowfish tables computed from π with math/big, EksBlowfish from the USENIX'99 paper) passes Eric Young's Blowfish vectors and the OpenBSD/Openwall bcrypt vectors; nettle and libxcrypt pass the same vectors in their clib unit tests; x/crypto/blowfish is not used by any oracle")
 	m.Assume("crypt_blowfish-derived witnesses alter $2a$ hashes for passwords that trigger their sign-extension collision countermeasure; those passwords are presented to them under $2b$ (same algorithm, no countermeasure)")
 	py, pyErr := ext.StartPy()
@@ -231,22 +231,82 @@ func TestC17(t *testing.T) {
 	}
 	w := &c17Witnesses{m: m, py: py}
 
+	// every call hands private, guarded copies of its inputs to the package (with and without spare
+	// capacity) and checks afterwards that neither content nor spare capacity was written to
 	cmp := func(h, pw []byte) (err error, pv any, site string) {
+		gh, gp := newGbuf(h, gbufSpare()), newGbuf(pw, gbufSpare())
 		var stack string
-		pv, stack = mon.Panics(func() { err = bcrypt.CompareHashAndPassword(h, pw) })
+		pv, stack = mon.Panics(func() { err = bcrypt.CompareHashAndPassword(gh.S(), gp.S()) })
 		if pv != nil {
 			site = mon.PanicSite(stack)
 		}
+		checkInputs(m, "CompareHashAndPassword", map[string]any{"hashedPassword": string(h)}, map[string]*gbuf{"hashedPassword": gh, "password": gp})
 		return
 	}
 	cost := func(h []byte) (c int, err error, pv any, site string) {
+		gh := newGbuf(h, gbufSpare())
 		var stack string
-		pv, stack = mon.Panics(func() { c, err = bcrypt.Cost(h) })
+		pv, stack = mon.Panics(func() { c, err = bcrypt.Cost(gh.S()) })
 		if pv != nil {
 			site = mon.PanicSite(stack)
 		}
+		checkInputs(m, "Cost", map[string]any{"hashedPassword": string(h)}, map[string]*gbuf{"hashedPassword": gh})
 		return
 	}
+	generate := func(pw []byte, c int, salt []byte) (hb []byte, err error) {
+		gp := newGbuf(pw, gbufSpare())
+		hb, err = c17Generate(gp.S(), c, salt)
+		checkInputs(m, "GenerateFromPassword", map[string]any{"cost": c}, map[string]*gbuf{"password": gp})
+		return
+	}
+	// repeatability: the SAME hashedPassword and password slices (never restored in between) are
+	// presented right / wrong / right again, and Cost three times: verdicts must not depend on history
+	repeatOnSameSlices := func(h string, pw []byte, c int, wit map[string]any) {
+		spare := gbufSpare()
+		gh, gp := newGbuf([]byte(h), spare), newGbuf(pw, gbufSpare())
+		wrong := append([]byte(nil), pw...)
+		if len(wrong) == 0 {
+			wrong = []byte{1}
+		} else {
+			wrong[0] ^= 0x20
+		}
+		gw := newGbuf(wrong, gbufSpare())
+		var verdicts []string
+		var costs []string
+		pv, stack := mon.Panics(func() {
+			for k := 0; k < 3; k++ {
+				cand := gp
+				if k == 1 {
+					cand = gw
+				}
+				e := bcrypt.CompareHashAndPassword(gh.S(), cand.S())
+				verdicts = append(verdicts, fmt.Sprint(e))
+				cc, ce := bcrypt.Cost(gh.S())
+				costs = append(costs, fmt.Sprint(cc, ce))
+				m.EvalN(2)
+			}
+		})
+		m.Count("repeatability_triples_on_same_slice", 1)
+		w := map[string]any{"verdicts(right,wrong,right)": verdicts, "costs": costs, "hash_slice_now": string(gh.full[:gh.n]), "hash_len": gh.n, "hash_cap": len(gh.full)}
+		for k, v := range wit {
+			w[k] = v
+		}
+		if pv != nil {
+			w["panic"] = fmt.Sprint(pv)
+			m.Violation("panic:compare:"+mon.PanicSite(stack), w)
+			return
+		}
+		mis := bcrypt.ErrMismatchedHashAndPassword.Error()
+		if verdicts[0] != "<nil>" || verdicts[1] != mis || verdicts[2] != "<nil>" {
+			m.Violation("compare-verdict-depends-on-earlier-calls-on-same-slice", w)
+		}
+		want := fmt.Sprint(c, error(nil))
+		if costs[0] != want || costs[1] != want || costs[2] != want {
+			m.Violation("cost-depends-on-earlier-calls-on-same-slice", w)
+		}
+		checkInputs(m, "CompareHashAndPassword(x3)+Cost(x3)", wit, map[string]*gbuf{"hashedPassword": gh, "password": gp, "wrong_password": gw})
+	}
+	kept := newRetained(m, "GenerateFromPassword", 8)
 
 	// judgeCandidate: CompareHashAndPassword(h, cand) against the effective-key oracle.
 	judgeCandidate := func(h string, pw, cand []byte, kind string, wit map[string]any) {
@@ -379,7 +439,7 @@ func TestC17(t *testing.T) {
 		c := c17Cost(i)
 		salt := c17Salt(r)
 		wit := map[string]any{"password": mon.FullHex(pw), "cost": c, "salt": mon.FullHex(salt)}
-		hb, err := c17Generate(append([]byte(nil), pw...), c, salt)
+		hb, err := generate(pw, c, salt)
 		m.Eval()
 		m.Distinct(fmt.Sprintf("generate len=%d style=%d cost=%d", len(pw), style, c))
 		if err != nil || len(hb) == 0 {
@@ -429,6 +489,8 @@ func TestC17(t *testing.T) {
 			wit["err"] = e.Error()
 			m.Violation("self-roundtrip-fails", wit)
 		}
+		kept.add(hb, fmt.Sprintf("roundtrip case %d", i))
+		repeatOnSameSlices(h, pw, c, wit)
 		rej, asked := w.verify(h, pw)
 		m.Count("generated_hash_witness_verifications", asked)
 		if len(rej) > 0 {
@@ -444,6 +506,11 @@ func TestC17(t *testing.T) {
 			return
 		}
 		nearMisses(i, r, h, pw, wit, m.N(7, 12))
+		// results returned by earlier GenerateFromPassword calls must not have changed meanwhile
+		kept.recheck()
+		if string(hb) != h {
+			m.Violation("output-changed-after-later-calls:GenerateFromPassword", map[string]any{"when_returned": h, "now": string(hb)})
+		}
 	})
 
 	// ---------- > 72 bytes must be refused by Generate ----------
@@ -453,7 +520,7 @@ func TestC17(t *testing.T) {
 		pw := c17Password(r, n, int(i/8)%4)
 		var hb []byte
 		var err error
-		pv, stack := mon.Panics(func() { hb, err = c17Generate(pw, 4, c17Salt(r)) })
+		pv, stack := mon.Panics(func() { hb, err = generate(pw, 4, c17Salt(r)) })
 		m.Eval()
 		m.Distinct(fmt.Sprintf("too-long len=%d", n))
 		m.Count("too_long_generate_calls", 1)
@@ -548,6 +615,7 @@ func TestC17(t *testing.T) {
 			wit["cost_returned"], wit["cost_err"] = cc, fmt.Sprint(cerr)
 			m.Violation("cost-of-foreign-hash-wrong", wit)
 		}
+		repeatOnSameSlices(h, pw, c, wit)
 		nearMisses(i, r, h, pw, wit, m.N(4, 8))
 	})
 
@@ -575,7 +643,7 @@ func TestC17(t *testing.T) {
 		switch i {
 		case 0, 1:
 			arg := []int{0, 3}[i]
-			hb, err := c17Generate(pw, arg, mon.Bytes(r, 16))
+			hb, err := generate(pw, arg, mon.Bytes(r, 16))
 			m.Eval()
 			m.Count("cost_below_min_calls", 1)
 			if err != nil {
@@ -590,7 +658,7 @@ func TestC17(t *testing.T) {
 			}
 		default:
 			arg := []int{32, 100}[i-2]
-			hb, err := c17Generate(pw, arg, mon.Bytes(r, 16))
+			hb, err := generate(pw, arg, mon.Bytes(r, 16))
 			m.Eval()
 			m.Count("cost_above_max_calls", 1)
 			if err == nil || hb != nil {
@@ -599,6 +667,10 @@ func TestC17(t *testing.T) {
 		}
 	})
 
+	m.Gate("repeatability_triples_on_same_slice", nR+nF, "right/wrong/right Compare and 3x Cost on the same slices, once per roundtrip and per foreign case")
+	m.Gate("input_immutability_checks", 10*nR, "input slices compared with their snapshot after the call")
+	m.Gate("input_immutability_checks_with_spare_capacity", 5*nR, "of which slices with cap > len whose spare capacity carries a sentinel")
+	m.Gate("retained_outputs_rechecked", nR, "hashes returned by earlier GenerateFromPassword calls re-verified after later calls")
 	m.Gate("generate_vs_reference", nR, "every generated hash compared with the reference hash")
 	m.Gate("generated_72_byte_passwords", nR/6, "72-byte passwords (length forced by index)")
 	m.Gate("generated_passwords_with_NUL", nR/8, "passwords containing NUL (style forced by index)")
